@@ -166,6 +166,16 @@ def run(chk):
     agraphs.append((2, [[], [0]], [[], []], [1], (1,)))
     agraphs.append((3, [[], [0], [1]], [[], [], []], [2], (1,)))
     agraphs.append((4, [[1], [], [], []], [[], [], [], []], [0, 3], (1, 3)))
+    # a core backend over a chain / a fork of three more modules, under EVERY assignment of names (unload rounds scan in name order:
+    # whether another round is needed must not depend on which module happens to be scanned last)
+    import itertools as _it
+    for perm in _it.permutations(range(4)):
+        a, b, c, d = perm
+        chain = [[] for _ in range(4)]; chain[a] = [b]; chain[b] = [c]; chain[c] = [d]
+        fork = [[] for _ in range(4)]; fork[a] = [b]; fork[b] = [c, d]
+        for g in (chain, fork):
+            agraphs.append((4, g, [[], [], [], []], [a], (a,)))
+        agraphs.append((4, chain, [[], [], [], []], [a], (a, c)))
     ares = pmap(lambda g: run_daemon(impl, g[0], g[1], g[3], anti=g[2], backends=g[4]), agraphs)
     aspec = lambda n, deps, anti, listing, bks=(): "A;%d;%s;%s;%s;%s" % (n, ";".join(",".join(str(d) for d in deps[i]) for i in range(n)), ";".join(",".join(str(d) for d in anti[i]) for i in range(n)), ",".join(str(x) for x in listing), ",".join(str(b) for b in bks))
     amodel = subprocess.run([str(drv)], input=("\n".join(aspec(*g) for g in agraphs) + "\n").encode(), stdout=subprocess.PIPE, timeout=600).stdout.decode().split("\n")[:-1]
